@@ -1142,16 +1142,30 @@ func (e *Exec) backEdge(fr *Frame, p, h *ssa.BasicBlock) {
 		saved[phi] = fr.vals[phi]
 		fr.vals[phi] = e.val(fr, phi.Edges[idx])
 	}
+	// several back edges of one loop: number them in predecessor order
+	edgeNo, be := 0, 0
+	for _, q := range h.Preds {
+		if isBackEdge(q, h) {
+			be++
+			if q == p {
+				edgeNo = be
+			}
+		}
+	}
+	sfx := ""
+	if edgeNo > 1 {
+		sfx = fmt.Sprintf("#%d", edgeNo)
+	}
 	env := e.envForLoop(fr, h, fr.out[p])
 	for _, c := range spec.Hints {
 		t := e.evalBool(c, env)
-		e.Out.AddObl(&Obligation{Name: fmt.Sprintf("%s/hint:loop%d:%s", FuncKey(fr.fn), ord, c.Label), Func: FuncKey(fr.fn), Kind: "hint", Label: c.Label, Text: c.Text, Src: c.Src,
+		e.Out.AddObl(&Obligation{Name: fmt.Sprintf("%s/hint:loop%d:%s%s", FuncKey(fr.fn), ord, c.Label, sfx), Func: FuncKey(fr.fn), Kind: "hint", Label: c.Label, Text: c.Text, Src: c.Src,
 			Formula: Imp(g, t), Inputs: e.obsInputs(fr), Obs: e.lastObs})
 		e.assume(g, t)
 	}
 	for _, c := range spec.Invariants {
 		t := e.evalBool(c, env)
-		e.Out.AddObl(&Obligation{Name: fmt.Sprintf("%s/inv-pres:loop%d:%s", FuncKey(fr.fn), ord, c.Label), Func: FuncKey(fr.fn), Kind: "inv-pres", Label: c.Label, Text: c.Text, Src: c.Src,
+		e.Out.AddObl(&Obligation{Name: fmt.Sprintf("%s/inv-pres:loop%d:%s%s", FuncKey(fr.fn), ord, c.Label, sfx), Func: FuncKey(fr.fn), Kind: "inv-pres", Label: c.Label, Text: c.Text, Src: c.Src,
 			Formula: Imp(g, t), Inputs: e.obsInputs(fr), Obs: e.lastObs})
 	}
 	if spec.Decreases != nil {
